@@ -184,6 +184,9 @@ def h_offer_answer(ctx, noffer, nanswer, data, policies=(0, 0), followup=None):
     b = RTCPeerConnection(RTCConfiguration(bundlePolicy=pol[policies[1]]))
     try:
         ta = []
+        data_first = bool(data and noffer and ctx.choice("data_first", [False, True]))
+        if data_first:
+            a.createDataChannel("chat")
         for i in range(noffer):
             kind = ctx.choice("a%d_kind" % i, ["audio", "video"])
             d = ctx.choice("a%d_dir" % i, DIRECTIONS)
@@ -192,7 +195,7 @@ def h_offer_answer(ctx, noffer, nanswer, data, policies=(0, 0), followup=None):
                 caps = [c for c in pc.RTCRtpSender.getCapabilities("video").codecs if c.mimeType in ("video/H264", "video/rtx")]
                 t.setCodecPreferences(caps)
             ta.append(t)
-        if data:
+        if data and not data_first:
             a.createDataChannel("chat")
         tb = []
         for i in range(nanswer):
@@ -244,6 +247,13 @@ def h_offer_answer(ctx, noffer, nanswer, data, policies=(0, 0), followup=None):
             ctx.check(len(peer) == 1, "every-offered-transceiver-has-a-peer")
             if peer:
                 ctx.check(peer[0].currentDirection == pc.reverse_direction(t.currentDirection), "current-directions-complementary")
+        # nothing that was negotiated has lost its transport
+        for p_ in (a, b):
+            ts = [(t.mid, t.sender.transport) for t in p_.getTransceivers() if t.mid is not None and not t.stopped]
+            if p_.sctp is not None:
+                ts.append(("sctp", p_.sctp.transport))
+            for mid, dtls in ts:
+                ctx.check(dtls.state != "closed" and dtls.transport.state != "closed", "negotiated-section-keeps-its-transport", "mid %s dtls=%s ice=%s" % (mid, dtls.state, dtls.transport.state))
         ctx.observe("mlines", len(ad.media))
         if followup:
             # follow-up negotiation: one side adds a transceiver and offers again ("same": the first
